@@ -14,7 +14,8 @@
 Require Import Arith List Bool QArith Qcanon.
 From TK Require Import Mat_Sums Mat_Core Mat_Qc Mat_EigSelect Spectral_KyFan Pencil_Model Pencil_Spec
      Pencil_Proof_Sums Pencil_Proof Pencil_Proof_Rot Pencil_Proof_KyFan Pencil_Proof_Qc
-     EigSelect Pencil_Proof_Tie Pencil_Proof_Unique Pencil_Proof_Embed Pencil_Proof_Scale Pencil_Proof_Front.
+     EigSelect Pencil_Proof_Tie Pencil_Proof_Unique Pencil_Proof_Embed Pencil_Proof_Scale Pencil_Proof_Front
+     Pencil_Proof_OnePass.
 Import ListNotations.
 Local Open Scope F_scope.
 
@@ -610,3 +611,33 @@ Proof.
                             eq_ind EMRandomized (fun m => match m with EMRandomized => True | EMDense => False end) I
                                    EMDense H))).
 Qed.
+
+(* ---------- 10. (Wave 3) one-pass and two-pass right-hand sides of LLTSA are equal over an exact field ---------- *)
+(* lltsa_one_pass is NOT the code: it is the textbook rewrite  rhs = sum x x^T - N m m^T  (mean and scatter in one
+   pass over the features, then rankUpdate(mean, -N)), lhs as in the code.  For every field, every X, W and N <> 0 its
+   tables are those of the current code: so the exact model / the exact decision procedures cannot distinguish the two
+   formulas.  They differ only in binary64 rounding (eps * (offset/spread)^2 against eps * offset/spread); that is
+   decided by the large-offset inputs of checks/c10.py (exact stream: inputs on which the centred accumulation is exact
+   in binary64 while the expanded sums exceed 2^53; tolerance stream: translation pairs and pencil comparison). *)
+Theorem lltsa_rhs_one_pass_equal :
+  forall (F : Type) (Fo : FieldOps F) (Ff : IsField F) N (X : mat F) (W : sparse F) i j,
+    of_nat N <> 0 ->
+    p_rhs (lltsa_one_pass X N W) i j = p_rhs (lltsa_centred X N W) i j.
+Proof. exact (@lltsa_rhs_one_pass_equal_gen). Qed.
+Print Assumptions lltsa_rhs_one_pass_equal.
+
+Theorem lltsa_one_pass_equal :
+  forall (F : Type) (Fo : FieldOps F) (Ff : IsField F) N (X : mat F) (W : sparse F),
+    of_nat N <> 0 -> peq (lltsa_one_pass X N W) (lltsa_centred X N W).
+Proof. exact (@lltsa_one_pass_equal_gen). Qed.
+Print Assumptions lltsa_one_pass_equal.
+
+Theorem lltsa_one_pass_problem :
+  forall (F : Type) (Fo : FieldOps F) (Ff : IsField F) D N (X : mat F) (W : sparse F),
+    of_nat N <> 0 -> indices_ok N W ->
+    is_pencil D (XMXt N (centred X N) (sym2 (dense_of W))) (XMXt N X (Jn N)) (lltsa_one_pass X N W).
+Proof. exact (@lltsa_one_pass_problem_gen). Qed.
+Print Assumptions lltsa_one_pass_problem.
+
+Example one_pass_nonvacuous : indices_ok 2 sW /\ @of_nat Qc QcOps 2 <> 0.
+Proof. exact (conj sW_ok (Qc_of_nat_neq0 2 (Nat.neq_succ_0 1))). Qed.
